@@ -40,6 +40,7 @@ type SpecEnv struct {
 	entryLocals func(name string) (specVal, bool)
 	mapIt       *Term        // iterator of the map-range loop whose invariant is being evaluated
 	mapItInfo   *mapIterInfo // its map
+	resSel      int          // 1 + result selected by an enclosing res<i>(...) (0: none)
 }
 
 type fvBinding struct {
@@ -686,6 +687,15 @@ func (env *SpecEnv) call(e *SExpr) specVal {
 			return specVal{x.t, t}
 		}
 		return specVal{fx.unboxIface(x.t, t), t}
+	case "res0", "res1", "res2":
+		// res<i>(call): the i-th result of a pure call with several results
+		if len(e.Args) != 1 || e.Args[0].Kind != "call" {
+			env.fail("%s needs a call", e.Name)
+		}
+		env.resSel = int(e.Name[3]-'0') + 1
+		v := env.expr(e.Args[0])
+		env.resSel = 0
+		return v
 	case "boxed":
 		// boxed(p): the interface value holding p (dynamic type = static type of p)
 		x := env.expr(e.Args[0])
@@ -815,10 +825,12 @@ func (env *SpecEnv) call(e *SExpr) specVal {
 		}
 		return env.callSpec(sf, args)
 	}
-	if v, ok := env.specMethodCall(e); ok {
+	sel := env.resSel
+	env.resSel = 0
+	if v, ok := env.specMethodCall(e, sel); ok {
 		return v
 	}
-	if v, ok := env.specPureFuncCall(e); ok {
+	if v, ok := env.specPureFuncCall(e, sel); ok {
 		return v
 	}
 	env.fail("unknown function %s in spec", e.Name)
